@@ -583,3 +583,175 @@ def ordered_flag_validity(facts):
         else:
             out.append(ob("theta.ordered-flag", key, fn["pat"], "discharged", "for all (other.is_ordered(), ordered): is_ordered_ && !other.is_ordered() implies the guarded std::sort runs", fn["qname"]))
     return out
+
+
+# ----------------------------------------------------------------------------------------------
+# path-sensitive result rules of the set operations
+
+def _result_paths(fn, entries_d):
+    """enumerate structured paths of fn up to each `return CS(is_empty, flag, seed, theta, move(entries))`; state:
+    order in {'empty', True, False, ('preserve', name)}, trimmed in {True, False}, conds = [(expr, polarity)]"""
+    results = []
+
+    def touches(n):
+        hit = [False]
+        walk(n, lambda x: hit.__setitem__(0, True) if x.get("k") == "Ref" and x.get("d") == entries_d else None)
+        return hit[0]
+
+    def calls_named(n, names):
+        out = []
+        walk(n, lambda x: out.append(x) if x.get("k") == "Call" and (x.get("cname") in names) else None)
+        return out
+
+    def root_param(e):
+        r = []
+        walk(e, lambda x: r.append(x) if x.get("k") == "Ref" and x.get("dk") == "param" else None)
+        return r[0]["n"] if r else None
+
+    def apply(s, st):
+        """straight-line effect of a non-branching statement on the state"""
+        order, trimmed = st["order"], st["trimmed"]
+        if not touches(s):
+            return st
+        if calls_named(s, ("sort",)):
+            order = True
+        elif calls_named(s, ("set_difference",)):
+            order = True
+            trimmed = False
+        elif calls_named(s, ("nth_element",)):
+            order = False
+        elif calls_named(s, ("copy_if", "copy")) or calls_named(s, ("push_back", "emplace_back")):
+            c = (calls_named(s, ("copy_if", "copy")) or [None])[0]
+            src = root_param(c["args"][0]) if c is not None and c.get("args") else None
+            if s.get("k") == "RangeFor":
+                src = root_param(s.get("range"))
+            order = ("preserve", src) if (src and order == "empty") else False
+            trimmed = False
+        return dict(st, order=order, trimmed=trimmed)
+
+    def is_trim(s):
+        if s.get("k") != "If" or s.get("e") is not None:
+            return False
+        c = txt(s["c"]).replace(" ", "")
+        return c.startswith("(entries.size()>") and calls_named(s["t"], ("nth_element",)) and calls_named(s["t"], ("erase", "resize"))
+
+    def run(stmts, states):
+        for s in stmts:
+            nxt = []
+            for st in states:
+                if st.get("done"):
+                    nxt.append(st)
+                    continue
+                k = s.get("k")
+                if k == "Return":
+                    e = strip_all(s.get("e") or {})
+                    while e.get("k") == "Construct" and len(e.get("args", [])) == 1:
+                        e = strip_all(e["args"][0])
+                    if e.get("k") == "Construct" and len(e.get("args", [])) == 5 and touches(e["args"][4]):
+                        results.append(dict(st, flag=e["args"][1], loc=s["loc"]))
+                    nxt.append(dict(st, done=True))
+                elif k == "Throw" or (k == "Expr" and strip_all(s.get("e") or {}).get("k") == "Throw"):
+                    nxt.append(dict(st, done=True))
+                elif k == "If":
+                    if is_trim(s):
+                        a = run(stmts_of(s["t"]), [dict(st, conds=st["conds"] + [(s["c"], True)])])
+                        for x in a:
+                            nxt.append(dict(x, trimmed=True) if not x.get("done") else x)
+                        nxt.append(dict(st, conds=st["conds"] + [(s["c"], False)], trimmed=True))
+                    else:
+                        nxt += run(stmts_of(s["t"]), [dict(st, conds=st["conds"] + [(s["c"], True)])])
+                        if s.get("e") is not None:
+                            nxt += run(stmts_of(s["e"]), [dict(st, conds=st["conds"] + [(s["c"], False)])])
+                        else:
+                            nxt.append(dict(st, conds=st["conds"] + [(s["c"], False)]))
+                elif k == "Block":
+                    nxt += run(stmts_of(s), [st])
+                else:
+                    nxt.append(apply(s, st))
+            states = nxt
+        return states
+    run(stmts_of(fn["body"]), [{"order": "empty", "trimmed": True, "conds": []}])
+    return results
+
+
+def _beval(e, env):
+    """three-valued evaluation over atoms: param `ordered` -> env['p']; X.is_ordered() -> env['o_X']"""
+    e = strip_all(e)
+    k = e.get("k")
+    if k == "Bin" and e.get("op") in ("&&", "||"):
+        a, b = _beval(e["l"], env), _beval(e["r"], env)
+        if e["op"] == "&&":
+            return False if (a is False or b is False) else (True if (a is True and b is True) else None)
+        return True if (a is True or b is True) else (False if (a is False and b is False) else None)
+    if k == "Un" and e.get("op") == "!":
+        a = _beval(e["e"], env)
+        return None if a is None else (not a)
+    if k == "Ref" and e.get("dk") == "param" and e.get("n") == "ordered":
+        return env.get("p")
+    if k == "Call" and e.get("cname") == "is_ordered" and strip_all(e.get("obj") or {}).get("k") == "Ref":
+        return env.get("o_" + strip_all(e["obj"])["n"])
+    if k == "Bool":
+        return bool(e.get("b", e.get("v")))
+    return None
+
+
+def result_claims(facts):
+    """set-operation results, decided on every structured path to `return CS(is_empty, FLAG, seed, theta, move(entries))`:
+    (a) ordered claim - for every truth assignment of `ordered` and each operand's is_ordered() consistent with the branch
+    conditions of the path, FLAG true implies the entries were sorted on that path (std::sort / set_difference) or were copied in
+    order from an operand that is itself ordered; (b) union only - every path that fills entries from the table passes the
+    trim-to-nominal-size step (nth_element + theta update + erase) afterwards."""
+    import itertools
+    fns = functions_by(facts, ["theta", "tuple"])
+    out = []
+    for pat, fn in sorted(fns.items()):
+        if fn["name"] not in ("get_result", "compute") or not any(x in fn["qname"] for x in ("theta_union_base", "theta_intersection_base", "theta_set_difference_base")):
+            continue
+        ent = [v for v in local_decls(fn).values() if v.get("n") == "entries"]
+        if not ent:
+            continue
+        paths = _result_paths(fn, ent[0]["d"])
+        base = short(fn["patq"])
+        if not paths:
+            out.append(ob("theta.result-claim", base + ":paths", fn["pat"], "unrecognised", "no `return CS(is_empty, flag, seed, theta, move(entries))` reached", fn["qname"]))
+            continue
+        atoms = {"p"}
+        for pth in paths:
+            for c, _ in pth["conds"] + [(pth["flag"], True)]:
+                walk(c, lambda x: atoms.add("o_" + strip_all(x["obj"])["n"]) if x.get("k") == "Call" and x.get("cname") == "is_ordered" and strip_all(x.get("obj") or {}).get("k") == "Ref" else None)
+            if isinstance(pth["order"], tuple) and pth["order"][1]:
+                atoms.add("o_" + pth["order"][1])
+        atoms = sorted(atoms)
+        bad_order, bad_trim = [], []
+        for pth in paths:
+            for vals in itertools.product((False, True), repeat=len(atoms)):
+                env = dict(zip(atoms, vals))
+                if any((_beval(c, env) is not None) and (_beval(c, env) != pol) for c, pol in pth["conds"]):
+                    continue
+                fl = _beval(pth["flag"], env)
+                if fl is None:
+                    bad_order.append("flag `%s` not understood" % txt(pth["flag"]))
+                    break
+                if not fl:
+                    continue
+                o = pth["order"]
+                ok = o is True or o == "empty" or (isinstance(o, tuple) and env.get("o_%s" % o[1]) is True)
+                if not ok:
+                    bad_order.append("path [%s] with %s: flag `%s` is true but the entries are %s" % (
+                        " && ".join(("" if pol else "!") + txt(c)[:50] for c, pol in pth["conds"]) or "straight", ", ".join("%s=%s" % (a.replace("o_", "") + (".is_ordered()" if a.startswith("o_") else "").replace("p", "ordered") if a != "p" else "ordered", str(v).lower()) for a, v in env.items()),
+                        txt(pth["flag"]), "in the order of unordered operand `%s`" % o[1] if isinstance(o, tuple) else "not sorted on this path"))
+                    break
+            if "theta_union_base" in fn["qname"] and not pth["trimmed"]:
+                bad_trim.append("path [%s]" % (" && ".join(("" if pol else "!") + txt(c)[:50] for c, pol in pth["conds"]) or "straight"))
+        k1 = base + ":ordered-claim"
+        if bad_order:
+            out.append(ob("theta.result-claim", k1, paths[0]["loc"], "violated", bad_order[0] + " - the result claims is_ordered() over unsorted entries; ordered consumers (early stop in union / intersection, set_difference) then drop or keep the wrong keys", fn["qname"]))
+        else:
+            out.append(ob("theta.result-claim", k1, paths[0]["loc"], "discharged", "%d paths x %d atoms: the ordered flag implies sorted entries on every path" % (len(paths), len(atoms)), fn["qname"]))
+        if "theta_union_base" in fn["qname"]:
+            k2 = base + ":trimmed"
+            if bad_trim:
+                out.append(ob("theta.result-claim", k2, paths[0]["loc"], "violated", "%s fills the result from the table without passing the trim to the nominal size afterwards (nth_element, theta := (k+1)-th hash, erase): the union result can retain more than k hashes with a theta that is not the (k+1)-th smallest" % bad_trim[0], fn["qname"]))
+            else:
+                out.append(ob("theta.result-claim", k2, paths[0]["loc"], "discharged", "every filling path passes the trim to the nominal size", fn["qname"]))
+    return out
